@@ -269,11 +269,11 @@ theorem verifyClaim_nil_iff (dec : Dec) (reds : List Redaction) (m : Manifest) :
     refine ⟨?_, ?_, h3⟩
     · by_cases hs : (dec.sigOf m.sigBox).signed = m.claim
       · exact hs
-      · simp [hs] at h1
+      · simp [hs, payloadUsed] at h1
     · intro hu hmem
       exact (uriFailures_nil_iff reds m hu).1 (h2 hu hmem)
   · rintro ⟨h1, h2, h3⟩
-    refine ⟨⟨by simp [h1], ?_⟩, h3⟩
+    refine ⟨⟨by simp [h1, payloadUsed], ?_⟩, h3⟩
     intro hu hmem
     exact (uriFailures_nil_iff reds m hu).2 (h2 hu hmem)
 
